@@ -95,7 +95,10 @@ theorem compile_date (B : Build) (long : Bool) (args : Option (List Lit × Optio
       obtain ⟨f, z⟩ := fz
       cases z with
       | none => simp [dateArgPieces, zonePieces, dateRequest]
-      | some z => cases z <;> simp [dateArgPieces, zonePieces, dateRequest, timezoneOf, zoneName]
+      | some z =>
+        cases z <;> cases hB : B.tzWholeArg <;>
+          simp [dateArgPieces, zonePieces, dateRequest, tzOf, hB, timezoneOf, timezoneOfWhole, plainTextOf,
+            plainTextLoop, zoneName]
 
 theorem plainTextLoop_flush (inv pre : List Char) (X : List Piece) :
     plainTextLoop inv (flushText pre ++ X) =
